@@ -478,8 +478,35 @@ def c08():
     }
 
 
+def c20():
+    L = {"memcmp": 70, "memcpy": 70, "zeroize": 40, "compress": 66, "from_bytes": 24, "serialize_vec": 36}
+    L2 = {"memcmp": 34, "zeroize": 34, "memcpy": 34}
+    obs = [
+        ob("c20::key_id_path_roundtrip", "qt", 8, "Identifier <-> ExtKeychainPath <-> serialized path round trips exactly (depth byte + four big-endian child numbers, in order); parent_path / last_path_index / derive_key_id follow the path definition",
+           "every depth byte and every four u32 child numbers", est=60, loops=L),
+        ob("c20::switch_commitment_type_bytes", "qt", 4, "SwitchCommitmentType <-> u8: exactly 0 and 1 are valid and map back", "every byte", est=10),
+        ob("c20::proof_builder_rewind_message", "qt", 8, "ProofBuilder: the 20-byte rewind message written for (key id, switch) is read back by check_output as exactly that key id and switch for the wallet's own commitment; any other message byte, amount, message length or wallet recovers nothing",
+           "every amount, path of depth 0..=4 with any child numbers, both switch modes, any two different model wallets, any single corrupted message byte", est=200, loops=L, replay="model"),
+        ob("c20::legacy_proof_builder_rewind_message", "qt", 8, "LegacyProofBuilder: same for the pre-HF1 message layout (depth-3 paths, regular switch commitments)",
+           "every amount, depth-3 path with any child numbers, any two different model wallets, any single corrupted message byte", est=200, loops=L, replay="model", allow_unsat=["depth 4", "depth 0"]),
+        ob("c20::blinding_factor_split", "x", 6, "[ATTEMPT: symbolic execution did not finish in 660 s] BlindingFactor::split over the model scalar group: the second part is whole - first part, and the parts sum to the whole",
+           "every pair of model scalars", est=300, loops=L2, replay="model"),
+        ob("c20::blinding_factor_add", "x", 6, "[ATTEMPT: symbolic execution did not finish in 660 s] BlindingFactor::add over the model scalar group: a + b == b + a == the group sum",
+           "every pair of model scalars", est=300, loops=L2, replay="model"),
+    ]
+    return {
+        "obligations": obs,
+        "stubs": BASE_STUBS + SECP_STUBS + ["model keychain (implements the public Keychain trait): commit = injective packing of (wallet key, amount, key id, switch)", "PublicKey::serialize_vec -> constant bytes (FFI; only feeds the rewind-nonce hash, which the checked functions do not use)"],
+        "explanation": "Bounded proof over keychain::{Identifier, ExtKeychainPath, SwitchCommitmentType, BlindingFactor::{add, split}} and core::libtx::proof::{ProofBuilder, LegacyProofBuilder}::{new, proof_message, check_output}.",
+        "bounds": "all field values at full width; blinding factors in the model group Z_2^16",
+        "outside": "everything executed inside libsecp256k1-zkp: BIP32 derivation, commitments, bulletproof create / verify / rewind, aggsig, build::transaction; ViewKey::check_output (BIP32 public derivation)",
+        "assumptions": ["libsecp256k1's commitment binds (wallet key, amount, key id, switch): stated by the model keychain's injective commit"],
+    }
+
+
 PLAN = {
     "C08": c08(),
+    "C20": c20(),
     "C01": c01(),
     "C04": c04(),
     "C05": c05(),
